@@ -1,4 +1,4 @@
-import NfpmModel.Bytes
+import NfpmModel.Path
 /-
   Write-fault model (C06).  A packaging run issues a sequence of calls that may write to the
   destination (Write / Flush / Close of a layer that reaches it).  The destination fails from
@@ -54,7 +54,7 @@ def resolveTarget (target ext : Bytes) (targetIsDir : Bool) (packager conv : Byt
   | none => none
   | some p =>
     let path := if target = [] then conv
-                else if targetIsDir then (B.trimRight B.slash target) ++ B.slash :: conv
+                else if targetIsDir then Path.join2 target conv        -- path.Join(target, ConventionalFileName)
                 else target
     some (p, path)
 
